@@ -86,6 +86,7 @@ def dispatch (line : String) : String :=
   | "spantree" :: rest => handleSpanTree rest
   | "mono" :: rest => handleMono rest
   | "monoop" :: rest => handleMonoOp rest
+  | "monolabel" :: rest => handleMonoLabel rest
   | _ => "bad-op"
 
 partial def loop (h : IO.FS.Stream) (out : IO.FS.Stream) : IO Unit := do
